@@ -1089,8 +1089,16 @@ pub fn generate(cfg: &GenCfg, rng: &mut Rng) -> MSpec {
                 VT::F32 => CExpr::F32((next_marker() as u32) | 0x4000_0000 & 0x7f7f_ffff),
                 VT::F64 => CExpr::F64((next_marker() as u64) | 0x4000_0000_0000_0000),
                 VT::V128 => {
+                    // low half: the marker; high half: anything, the sign bit of the whole value set half of the time
                     let mut b = [0u8; 16];
                     b[..8].copy_from_slice(&next_marker().to_le_bytes());
+                    b[8..].copy_from_slice(&rng.next().to_le_bytes());
+                    if rng.bool() {
+                        b[15] |= 0x80;
+                    }
+                    if rng.chance(1, 4) {
+                        b[7] |= 0x80;
+                    }
                     CExpr::V128(b)
                 }
                 VT::FuncRef => {
